@@ -152,6 +152,39 @@ func init() {
 							xs[i] = v - 1
 							fs[i] = float64(v-1) / 2
 						}
+						// the same shapes over the extreme values of each numeric type
+						i64 := []int64{math.MinInt64, -1, 5, math.MaxInt64}
+						i32 := []int32{math.MinInt32, -1, 5, math.MaxInt32}
+						ii := []int{math.MinInt, -1, 5, math.MaxInt}
+						f64 := []float64{-math.MaxFloat64, -1.5, 5e-324, math.MaxFloat64}
+						a64 := make([]int64, len(s))
+						a32 := make([]int32, len(s))
+						ai := make([]int, len(s))
+						af := make([]float64, len(s))
+						for i, v := range s {
+							a64[i], a32[i], ai[i], af[i] = i64[v], i32[v], ii[v], f64[v]
+						}
+						if len(s) > 0 {
+							chk := func(name string, bad bool) {
+								if bad {
+									c.Violation("C20:Max/Min:does-not-bound-all-elements[type-extremes]", map[string]any{"type": name, "indices": s})
+								}
+							}
+							M64, _ := common.Max(a64)
+							m64, _ := common.Min(a64)
+							M32, _ := common.Max(a32)
+							m32, _ := common.Min(a32)
+							Mi, _ := common.Max(ai)
+							mi, _ := common.Min(ai)
+							Mf, _ := common.Max(af)
+							mf, _ := common.Min(af)
+							for i := range s {
+								chk("int64", a64[i] > M64 || a64[i] < m64)
+								chk("int32", a32[i] > M32 || a32[i] < m32)
+								chk("int", ai[i] > Mi || ai[i] < mi)
+								chk("float64", af[i] > Mf || af[i] < mf)
+							}
+						}
 						mx, e1 := common.Max(xs)
 						mn, e2 := common.Min(xs)
 						fx, e3 := common.Max(fs)
